@@ -48,36 +48,37 @@ NBS_Y = _subjects(4, 3, 2.0)
 
 TABLE = {
     'randmio_und': [((BU5, 1), {}), ((WU5, 1), {})],
-    'randmio_und_connected': [((BU5, 1), {})],
+    'randmio_und_connected': [((BU5, 1), {}), ((WU5, 2), {})],
     'randmio_dir': [((BD5, 1), {}), ((WD5, 1), {})],
-    'randmio_dir_connected': [((BD5, 1), {})],
-    'latmio_und': [((WU5, 1), {})],
+    'randmio_dir_connected': [((BD5, 1), {}), ((WD5, 2), {})],
+    'latmio_und': [((WU5, 1), {}), ((BU5, 1), {'D': DIST5})],
     'latmio_und_connected': [((BU5, 1), {})],
-    'latmio_dir': [((WD5, 1), {})],
+    'latmio_dir': [((WD5, 1), {}), ((BD5, 1), {})],
     'latmio_dir_connected': [((BD5, 1), {})],
     'randomize_graph_partial_und': [((WU5, np.zeros((5, 5)), 2), {})],
-    'randomizer_bin_und': [((BU5, 0.5), {})],
+    'randomizer_bin_und': [((BU5, 0.5), {}), ((BU5, 1.0), {})],
     'randmio_und_signed': [((SU4, 1), {})],
     'randmio_dir_signed': [((SD4, 1), {})],
-    'null_model_und_sign': [((SU4,), {'bin_swaps': 1, 'wei_freq': 0.5})],
+    'null_model_und_sign': [((SU4,), {'bin_swaps': 1, 'wei_freq': 0.5}), ((SU4,), {'bin_swaps': 2, 'wei_freq': 1})],
     'null_model_dir_sign': [((SD4,), {'bin_swaps': 1, 'wei_freq': 0.5})],
     'makeevenCIJ': [((8, 20, 2), {})],
     'makefractalCIJ': [((3, 2, 2), {})],
     'makerandCIJ_dir': [((5, 7), {})],
     'makerandCIJ_und': [((5, 4), {})],
-    'makerandCIJdegreesfixed': [((np.array([1, 2, 1, 1]), np.array([2, 1, 1, 1])), {})],
+    'makerandCIJdegreesfixed': [((np.array([1, 2, 1, 1]), np.array([2, 1, 1, 1])), {}),
+                                ((np.array([2, 2, 1, 1]), np.array([1, 1, 2, 2])), {})],
     'makeringlatticeCIJ': [((6, 15), {})],
     'maketoeplitzCIJ': [((3, 2, 1.0), {})],
     'community_louvain': [((BU5,), {}), ((WD5,), {'gamma': 1.1})],
-    'modularity_louvain_und': [((BU5,), {})],
-    'modularity_louvain_dir': [((BD5,), {})],
+    'modularity_louvain_und': [((BU5,), {}), ((WU5,), {'hierarchy': True})],
+    'modularity_louvain_dir': [((BD5,), {}), ((WD5,), {'hierarchy': True})],
     'modularity_louvain_und_sign': [((SU4,), {})],
-    'modularity_finetune_und': [((BU5,), {})],
+    'modularity_finetune_und': [((BU5,), {}), ((WU5,), {'ci': np.array([1, 1, 2, 2, 2])})],
     'modularity_finetune_dir': [((BD5,), {})],
     'modularity_finetune_und_sign': [((SU4,), {})],
-    'modularity_probtune_und_sign': [((SU4,), {})],
+    'modularity_probtune_und_sign': [((SU4,), {}), ((SU4,), {'p': 0.9, 'ci': np.array([1, 2, 1, 2])})],
     'core_periphery_dir': [((BD5,), {}), ((BU5,), {})],
-    'consensus_und': [((AGREE4, 0.3), {'reps': 4})],
+    'consensus_und': [((AGREE4, 0.3), {'reps': 4}), ((AGREE4, 0.05), {'reps': 3})],
     'rentian_scaling': [((BU5, XYZ5, 6), {})],
     'nbs_bct': [((NBS_X, NBS_Y, 2.0), {'k': 4}), ((NBS_X, NBS_Y, 2.0), {'k': 3, 'paired': True})],
     'generative_model': [((np.zeros((5, 5)), DIST5, 4, np.array([-1.0])),
